@@ -227,6 +227,25 @@ def run(tier, replay=None):
                 fh.close()
         gen_jobs.append(pool.submit(gen))
 
+    # ---- 3b. transition tables: every buffer state x every argument of the four step functions
+    tabs = [(16, 32), (12, 40)] + ([(16, 64), (24, 64)] if thorough else [])
+    for (gi, gm) in tabs:
+        cfg = write_cfg(wd, "tab_%d_%d.cfg" % (gi, gm), "TableSpec", dict(
+            geometry(gi, gm), Scope="e2e", WriteSizes=frame_sizes(gi, gm, True),
+            InjGood=[8] + list(range(10, gm + 1)), InjUndec=list(range(9, gm + 1)), InjShort=list(range(0, 8)),
+            InjOver=[gm + 1, gm + 8], Deviations=devs), invariants="EmitTables")
+        path = os.path.join(wd, "tables_%d_%d.ndjson" % (gi, gm))
+        gen_files.append(path)
+        fh = open(path, "w")
+
+        def tab(cfg=cfg, fh=fh):
+            try:
+                return vlib.tlc("Channel", cfg, PID, workers=2, timeout=1500, want_replay=True,
+                                replay_sink=lambda o: fh.write(json.dumps(o) + "\n"))
+            finally:
+                fh.close()
+        gen_jobs.append(pool.submit(tab))
+
     # ---- 4. I->S driver ---------------------------------------------------------------------------------
     bins = build.result()
     geos = [(1000000, 2000000, 8 if not thorough else 40, 300), (16, 64, 40 if not thorough else 300, 200),
@@ -260,6 +279,8 @@ def run(tier, replay=None):
     # ---- collect: replay
     n_beh = 0
     n_trans = 0
+    n_tables = 0
+    n_rows = 0
     classes = set()
     for fut, path in zip(gen_jobs, gen_files):
         g = fut.result()
@@ -274,7 +295,10 @@ def run(tier, replay=None):
             raise vlib.ToolError("replay_channel produced no summary")
         summ = summ[0]
         n_beh += summ["behaviours"]
-        n_trans += summ["distinct_transitions"]
+        n_trans += summ["distinct_transitions"] + summ.get("table_rows", 0)
+        n_tables += summ.get("tables", 0)
+        n_rows += summ.get("table_rows", 0)
+        rep.cov["evaluations"] += summ.get("table_rows", 0)
         rep.cov["evaluations"] += summ["steps"]
         classes |= set(summ["step_classes"])
         seen = set()
@@ -285,7 +309,7 @@ def run(tier, replay=None):
             if key in seen:
                 continue            # one replay file per kind of disagreement
             seen.add(key)
-            rep.violation(v["class"], "; ".join(v["problems"])[:280], v,
+            rep.violation(v["class"], "; ".join(v["problems"])[:380], v,
                           name="behaviour_%s_%s_%d.json" % (v["class"], v["op"].get("op"), len(rep.violations)))
     # one replayed behaviour, compactly, as a sample
     try:
@@ -299,6 +323,8 @@ def run(tier, replay=None):
         pass
     need = {"Write/ok", "Write/too_large", "Writable/ok", "Readable/ok", "ReadMessage/ok", "ReadMessage/nothing_read",
             "ReadMessage/under_delimiter", "ReadMessage/invalid_protobuf", "ReadMessage/too_large", "Inject/", "WireMove/"}
+    if not rep.violations and (n_tables == 0 or n_rows == 0):
+        raise vlib.ToolError("no transition table was replayed")
     if not rep.violations and not need <= classes:
         raise vlib.ToolError("vacuous replay: step classes never exercised: %s" % sorted(need - classes))
 
@@ -347,12 +373,17 @@ def run(tier, replay=None):
     rep.cov["distinct_nontrivial"] = n_trans
     rep.cov["exhaustive"] = False
     rep.extra["behaviours_replayed"] = n_beh
+    rep.extra["transition_tables_replayed"] = n_tables
+    rep.extra["transition_table_rows"] = n_rows
+    rep.extra["transition_tables_exhaustive_for"] = ["%d/%d" % g for g in tabs]
     rep.extra["driver_runs_accepted"] = n_runs
     rep.extra["step_classes_replayed"] = sorted(classes)
     rep.cov["rule"] = ("S->I: behaviours of Channel.tla (80 steps each, TLC -simulate, geometries %s) replayed on two real Channel ends, "
                        "result + projection (data, space, capacity, interest, readiness of both ends, bytes in flight, bytes in the "
                        "receiver's socket) compared after every step, decoded messages compared byte for byte; "
-                       "distinct_nontrivial = distinct (pre-projection, step, arguments, post-projection) tuples replayed. "
+                       "distinct_nontrivial = distinct (pre-projection, step, arguments, post-projection) tuples replayed + rows of the "
+                       "transition tables (every buffer state (pos,end,cap) allowed by the buffer invariants x every frame length / partial "
+                       "write size / socket fill / head frame, executed on a real Channel put in that state). "
                        "I->S: seeded driver runs at production sizes 1000000/2000000 and small geometries validated by "
                        "Trace_Channel.tla. Exhaustive TLC: sender scope (every frame length 8..max+8, every partial write), "
                        "receiver scope (two frames in flight, every split), liveness under fairness." % (
